@@ -134,15 +134,23 @@ def closed_loop(ck, rng, n_states):
         trunc = rng.choice([2, 6, 10])
         lmax = rng.choice([2, 3])
         e_other = rng.choice([0.0, 0.05, 0.2, 0.35])
-        ev = np.array([e_other, e]) if arrform else e
-        kw = dict(viscosity=10 ** rng.uniform(15, 21), shear_modulus=10 ** rng.uniform(9.5, 11), rheology=rheo,
-                  eccentricity=ev, orbital_frequency=n, spin_frequency=spin, max_tidal_order_l=lmax,
+        # which inputs are arrays rotates through the broadcast branches of the function: e only, n only, spin only, viscosity only, pairs, all
+        which = ["e", "n", "spin", "visc", "e+spin", "n+spin", "e+n", "e+n+spin"][(t // 3) % 8] if arrform else ""
+        ev = np.array([e_other, e]) if "e" in which.split("+") else e
+        visc0 = 10 ** rng.uniform(15, 21)
+        n_other, spin_other, visc_other = n * rng.uniform(0.6, 1.7), spin * rng.uniform(0.5, 1.4), visc0 * 10 ** rng.uniform(-1, 1)
+        scal = {"eccentricity": (e_other, e), "orbital_frequency": (n_other, n), "spin_frequency": (spin_other, spin), "viscosity": (visc_other, visc0)}
+        arr_keys = [k for k, tag in (("eccentricity", "e"), ("orbital_frequency", "n"), ("spin_frequency", "spin"), ("viscosity", "visc")) if tag in which.split("+")]
+        kw = dict(viscosity=visc0, shear_modulus=10 ** rng.uniform(9.5, 11), rheology=rheo,
+                  eccentricity=e, orbital_frequency=n, spin_frequency=spin, max_tidal_order_l=lmax,
                   eccentricity_truncation_lvl=trunc, fixed_q=50.0, fixed_k2=0.3, fixed_dt=100.0,
                   calculate_orbit_spin_derivatives=True)
+        for k_ in arr_keys:
+            kw[k_] = np.array(scal[k_], dtype=float)
         if obl is not None:
             kw["obliquity"] = obl
         det = {"R": Rr, "rho": rho, "M_host": M, "n": n, "spin": spin, "e": str(e), "obliquity": obl, "rheology": rheo,
-               "trunc": trunc, "lmax": lmax, "array": arrform}
+               "trunc": trunc, "lmax": lmax, "array": which or False}
         ck.case(("loop", t), True)
         try:
             res = quick_tidal_dissipation(M, Rr, m, g, rho, moi, **kw)
@@ -153,10 +161,11 @@ def closed_loop(ck, rng, n_states):
         pick = (lambda x: float(np.asarray(x).ravel()[-1]))
         if arrform:
             # array inputs give the same rates element-wise as scalar calls
-            for idx, es in enumerate((e_other, e)):
-                rs = quick_tidal_dissipation(M, Rr, m, g, rho, moi, **dict(kw, eccentricity=es))
-                for key in ("tidal_heating", "dUdM", "dUdw", "dUdO", "semi_major_axis_derivative", "eccentricity_derivative", "spin_rate_derivative"):
-                    va, vs = float(np.asarray(res[key]).ravel()[idx]), float(np.asarray(rs[key]).ravel()[0])
+            for idx in range(2):
+                rs = quick_tidal_dissipation(M, Rr, m, g, rho, moi, **dict(kw, **{k_: scal[k_][idx] for k_ in arr_keys}))
+                for key in ("tidal_heating", "dUdM", "dUdw", "dUdO", "semi_major_axis", "semi_major_axis_derivative", "eccentricity_derivative", "spin_rate_derivative"):
+                    ra = np.asarray(res[key]).ravel()
+                    va, vs = float(ra[idx] if ra.size > 1 else ra[0]), float(np.asarray(rs[key]).ravel()[0])     # a quantity that does not depend on the array inputs may stay scalar
                     if not (va == vs or abs(va - vs) <= 1e-12 * max(abs(va), abs(vs))):
                         ck.violation({"fn": "quick_tidal_dissipation", "clause": "array_vs_scalar", "what": key},
                                      "element %d of the array call: %s = %r, scalar call gives %r at %s" % (idx, key, va, vs, det), det)
@@ -196,18 +205,38 @@ def closed_loop(ck, rng, n_states):
             spin2 = n * rng.choice([1.0, 3.1, -1.2])
             try:
                 rd = quick_dual_body_tidal_dissipation((R2, Rr), (M2, m), (g2, g), (rho2, rho), (moi2, moi),
-                                                       viscosities=(1e18, kw["viscosity"]), shear_moduli=(5e10, kw["shear_modulus"]),
+                                                       viscosities=(1e18, visc0), shear_moduli=(5e10, kw["shear_modulus"]),
                                                        rheologies=("maxwell", "andrade" if rheo in ("cpl", "ctl") else rheo),
                                                        obliquities=(obl, obl) if obl is not None else None,
                                                        spin_frequencies=(spin2, spin), eccentricity=ev, orbital_frequency=n,
                                                        max_tidal_order_l=lmax, eccentricity_truncation_lvl=trunc)
+                # other ways of saying the same thing: a spin given as a period, and None for a spin-locked body (spin = n)
+                from TidalPy.utilities.conversions import rads2days
+                alt_forms = [("spin_periods", dict(spin_periods=(float(rads2days(spin2)), float(rads2days(spin)))), (spin2, spin))]
+                alt_forms.append(("host_explicit_secondary_locked", dict(spin_frequencies=(spin2, None)), (spin2, n)))
+                alt_forms.append(("host_locked_secondary_explicit", dict(spin_frequencies=(None, spin)), (n, spin)))
+                alt_forms.append(("period_and_locked", dict(spin_periods=(float(rads2days(spin2)), None)), (spin2, n)))
+                nm_alt, kw_alt, explicit = alt_forms[(t // 2) % len(alt_forms)]
+                common = dict(viscosities=(1e18, kw["viscosity"] if "viscosity" not in arr_keys else visc0), shear_moduli=(5e10, kw["shear_modulus"]),
+                              rheologies=("maxwell", "andrade" if rheo in ("cpl", "ctl") else rheo), obliquities=(obl, obl) if obl is not None else None,
+                              eccentricity=ev, orbital_frequency=n, max_tidal_order_l=lmax, eccentricity_truncation_lvl=trunc)
+                r_alt = quick_dual_body_tidal_dissipation((R2, Rr), (M2, m), (g2, g), (rho2, rho), (moi2, moi), **dict(common, **kw_alt))
+                r_exp = quick_dual_body_tidal_dissipation((R2, Rr), (M2, m), (g2, g), (rho2, rho), (moi2, moi), **dict(common, spin_frequencies=explicit))
+                ck.case(("loop-dual-forms", t, nm_alt), True)
+                for body in ("host", "secondary"):
+                    for key in ("tidal_heating", "dUdM", "dUdw", "spin_rate_derivative"):
+                        va, vs = np.asarray(r_alt[body][key], dtype=float).ravel(), np.asarray(r_exp[body][key], dtype=float).ravel()
+                        if va.shape != vs.shape or not np.all((va == vs) | (np.abs(va - vs) <= 1e-9 * np.maximum(np.abs(va), np.abs(vs)))):
+                            ck.violation({"fn": "quick_dual_body_tidal_dissipation", "clause": "spin_forms", "form": nm_alt, "what": key},
+                                         "dual-body %s %s with %s = %r, with both spins spelled out as frequencies %r at %s" % (body, key, kw_alt, va.tolist(), vs.tolist(), det), det)
+                            break
             except Exception as ex:
                 ck.violation({"fn": "quick_dual_body_tidal_dissipation", "clause": "total", "exc": type(ex).__name__, "e": str(e)},
                              "quick_dual_body_tidal_dissipation raised %s(%s) at %s" % (type(ex).__name__, str(ex)[:100], det), det)
                 continue
             # each body's part of a dual-body result equals the single-body calculation for that body (independent path)
             for nm, (Mh, Rb, mb, gb, rb, ib, vb, sb, rhb, spb) in (("host", (m, R2, M2, g2, rho2, moi2, 1e18, 5e10, "maxwell", spin2)),
-                                                                  ("secondary", (M2, Rr, m, g, rho, moi, kw["viscosity"], kw["shear_modulus"],
+                                                                  ("secondary", (M2, Rr, m, g, rho, moi, visc0, kw["shear_modulus"],
                                                                                  "andrade" if rheo in ("cpl", "ctl") else rheo, spin))):
                 ref = quick_tidal_dissipation(Mh, Rb, mb, gb, rb, ib, viscosity=vb, shear_modulus=sb, rheology=rhb, eccentricity=ev,
                                               obliquity=obl, orbital_frequency=n, spin_frequency=spb, max_tidal_order_l=lmax,
